@@ -137,7 +137,7 @@ PROPS['C11'] = {
 PROPS['C01'] = {
     'title': 'relate() returns the true DE-9IM matrix',
     'level': 'proof',
-    'verus': ['c01_boundary'],
+    'verus': ['c01_boundary', 'c01_nodekey'],
     'kani': [
         ('geo', 'c01.rs', r'^c01_k_', 'complete', 'quick'),
         ('geo', 'geomgraph.rs', r'^c01_k_', 'complete', 'quick'),
@@ -240,7 +240,7 @@ PROPS['C06'] = {
 PROPS['C08'] = {
     'title': 'Convex hull is the smallest convex polygon containing the input',
     'level': 'proof',
-    'verus': [],
+    'verus': ['c01_nodekey'],
     'kani_extra': ['--no-memory-safety-checks', '--no-overflow-checks', '--no-assertion-reach-checks'],
     'kani': [
         ('geo', 'c08.rs', r'^c08_k_(lex_cmp_and_least_index|swap_with_first_and_remove)$', 'complete', 'quick'),
